@@ -781,6 +781,8 @@ func (x *Exec) appendCPS(fr *Frame, st *State, args []Value, c *ssa.CallCommon, 
 				// the element landing at absolute index j is element j-(s.Off+s.Len) of t (bound variable = landing
 				// index, so that a goal about an element of the result instantiates the clause)
 				lo := Add(s.Off, s.Len)
+				st.assume(Term{fmt.Sprintf("(forall ((%s Int)) (=> (and (>= %s 0) (< %s %s)) (= (select %s %s) (select %s %s))))",
+					j, j, j, t.Len.S, inrow.S, Sidx(s.Off, Add(s.Len, Term{j, SInt})).S, trow.S, Sidx(t.Off, Term{j, SInt}).S), SBool})
 				st.assume(Term{fmt.Sprintf("(forall ((%s Int)) (! (=> (and (>= %s %s) (< %s %s)) (= (select %s %s) (select %s (+ %s (- %s %s))))) :pattern ((select %s %s))))",
 					j, j, lo.S, j, Add(s.Off, n).S, inrow.S, j, trow.S, t.Off.S, j, lo.S, inrow.S, j), SBool})
 				st.assume(Term{fmt.Sprintf("(forall ((%s Int)) (=> (or (< %s %s) (>= %s %s)) (= (select %s %s) (select %s %s))))",
@@ -813,6 +815,8 @@ func (x *Exec) appendCPS(fr *Frame, st *State, args []Value, c *ssa.CallCommon, 
 				}
 			} else {
 				newrow = x.freshConst(st, "newrow2", ArrSort(l.Sort))
+				st.assume(Term{fmt.Sprintf("(forall ((%s Int)) (=> (and (>= %s 0) (< %s %s)) (= (select %s (+ %s %s)) (select %s %s))))",
+					j, j, j, t.Len.S, newrow.S, s.Len.S, j, trow.S, Sidx(t.Off, Term{j, SInt}).S), SBool})
 				st.assume(Term{fmt.Sprintf("(forall ((%s Int)) (! (=> (and (>= %s %s) (< %s %s)) (= (select %s %s) (select %s (+ %s (- %s %s))))) :pattern ((select %s %s))))",
 					j, j, s.Len.S, j, n.S, newrow.S, j, trow.S, t.Off.S, j, s.Len.S, newrow.S, j), SBool})
 				st.assume(Term{fmt.Sprintf("(forall ((%s Int)) (=> (and (>= %s 0) (< %s %s)) (= (select %s %s) (select %s %s))))",
